@@ -59,6 +59,7 @@ def wait_rows(rng, n):
     from bardolph.lib import i_lib, injection
     cases = [('10:58', ['10:00']), ('10:58', ['11:00']), ('10:58', ['11:*']), ('10:58', ['*:00']), ('10:58', ['1*:00']), ('10:58', ['*1:00']),
              ('10:58', ['10:0*', '12:00']), ('10:58', ['11:01']), ('10:58', ['10:59']), ('23:58', ['23:00']), ('23:58', ['0:00']), ('23:58', ['*:*']),
+             ('10:58', ['10:58']), ('10:58', ['10:5*']), ('23:59', ['23:59', '0:10']), ('12:29', ['12:2*', '14:00']),      # already that time
              ('23:58', ['0:0*']), ('9:58', ['9:00', '10:01']), ('9:58', ['1*:0*']), ('19:58', ['*9:00', '20:02']), ('12:29', ['12:30']), ('12:29', ['*:3*'])]
     rows = []
     state = {}
